@@ -17,11 +17,13 @@ static std::string g_fix;                  // fixture directory
 
 static const char* kUnset = "\x01unset";
 static std::vector<std::string> tzdir_values() { return {kUnset, "", g_fix + "/zoneinfo", g_fix + "/nonexistent"}; }
-static std::vector<std::string> tz_values() { return {kUnset, "", "Test/Valid", ":Test/Valid", "localtime", ":localtime", "Invalid/Zone", "::Test/Valid", ":" + g_fix + "/zoneinfo/Test/Other"}; }
+static std::vector<std::string> tz_values() { return {kUnset, "", "Test/Valid", ":Test/Valid", "localtime", ":localtime", "Invalid/Zone", "::Test/Valid", ":" + g_fix + "/zoneinfo/Test/Other",
+          // look-alikes of the keyword: ordinary zone names (the first two exist under the fixture TZDIR)
+          "localtime.bak", ":localtime/Paris", "localtimes", "Localtime", "localtim", "UTC", "Fixed/UTC+01:60:00"}; }
 static std::vector<std::string> localtime_values() { return {kUnset, g_fix + "/localtime_file", g_fix + "/missing_localtime", "", ":" + g_fix + "/localtime_file"}; }
 static std::vector<std::string> name_values() {
   return {"Test/Valid", g_fix + "/zoneinfo/Test/Valid", "file:Test/Valid", "file:" + g_fix + "/zoneinfo/Test/Other", "", "Test/Dir", "Test/Unreadable",
-          "Test/Truncated", "Test/Leap", "Test/LeapSlim", ":Test/Valid", "UTC", "UTC0", "Fixed/UTC+01:00:00", "Test/Missing", "file:", "Test//Valid", "./Test/Valid", "Test/Other"};
+          "Test/Truncated", "Test/Leap", "Test/LeapSlim", ":Test/Valid", "UTC", "UTC0", "Fixed/UTC+01:00:00", "Fixed/UTC+01:60:00", "Fixed/UTC-23:59:60", "Fixed/UTC+24:00:01", "Fixed/UTC+00:00:00", "Test/Missing", "file:", "Test//Valid", "./Test/Valid", "Test/Other"};
 }
 
 static void apply_env(const char* var, const std::string& v) { if (v == kUnset) unsetenv(var); else setenv(var, v.c_str(), 1); }
@@ -49,7 +51,26 @@ static const std::string kUtcFp = "0sUTC,0sUTC,0sUTC,0sUTC,0sUTC,0sUTC,";
 static Expect expect_load(const std::string& name, const std::string& tzdir) {
   Expect e{false, "UTC", kUtcFp, ""};
   if (name == "UTC" || name == "UTC0") { e.ok = true; return e; }
-  if (name == "Fixed/UTC+01:00:00") { e.ok = true; e.name = name; e.fp = "3600s+01,3600s+01,3600s+01,3600s+01,3600s+01,3600s+01,"; return e; }
+  if (name.size() == 18 && name.compare(0, 9, "Fixed/UTC") == 0 && (name[9] == '+' || name[9] == '-') && name[12] == ':' && name[15] == ':') {
+    // fixed-offset name: 'Fixed/UTC+-hh:mm:ss', two digits each (not range-checked individually), total at most 24 h
+    bool digits = true;
+    for (int i : {10, 11, 13, 14, 16, 17}) digits = digits && name[i] >= '0' && name[i] <= '9';
+    auto two = [&](int i) { return (name[i] - '0') * 10 + (name[i + 1] - '0'); };
+    const long total = digits ? two(10) * 3600L + two(13) * 60L + two(16) : 0;
+    if (digits && total <= 86400) {
+      const long off = name[9] == '-' ? -total : total;
+      e.ok = true;
+      if (off == 0) return e;  // UTC itself
+      e.name = name;
+      char ab[16]; const long m = total / 60 % 60, sec = total % 60;
+      int n = snprintf(ab, sizeof ab, "%c%02ld", off < 0 ? '-' : '+', total / 3600);
+      if (m || sec) n += snprintf(ab + n, sizeof ab - n, "%02ld", m);
+      if (sec) snprintf(ab + n, sizeof ab - n, "%02ld", sec);
+      e.fp.clear();
+      for (size_t i = 0; i < sizeof kProbe / sizeof kProbe[0]; ++i) e.fp += std::to_string(off) + "s" + ab + ",";
+      return e;
+    }
+  }
   std::string rest = name.compare(0, 5, "file:") == 0 ? name.substr(5) : name;
   std::string path;
   if (!rest.empty() && rest[0] == '/') path = rest;
@@ -142,6 +163,7 @@ static void build_fixture(const std::string& dir) {
   cp(zi + "/Europe/London", dir + "/zoneinfo/Test/Other");
   cp(zi + "/Asia/Tokyo", dir + "/localtime_file");
   cp(zi + "/Australia/Sydney", dir + "/zoneinfo/localtime");  // a decoy: TZ=localtime must NOT resolve relative to TZDIR
+  cp(zi + "/Asia/Kolkata", dir + "/zoneinfo/localtime.bak");   // and names that merely begin with the keyword are ordinary names
   vf::write_file(dir + "/zoneinfo/Test/Truncated", vf::read_file(zi + "/America/New_York").substr(0, 700));
   cp(zi + "/Asia/Kolkata", dir + "/zoneinfo/Test/Unreadable"); chmod((dir + "/zoneinfo/Test/Unreadable").c_str(), 0);
   // leap-second ("right") data: take a valid file and declare one leap-second record in both blocks
@@ -203,9 +225,9 @@ static bool replay(const vf::Case& c, std::string* why) {
 
 static void run(const vf::Args& a, vf::Evidence& ev, vf::Reporter& rep) {
   ev.rule = "exhaustive environment matrix, each cell in a forked child: load_time_zone over TZDIR in {unset, empty, fixture, "
-            "nonexistent} x 19 names (relative, absolute, file:-prefixed relative/absolute, empty, directory, unreadable, truncated, "
-            "leap-second data (fat and slim layout), ':'-prefixed, UTC, UTC0, fixed, missing, 'file:' alone, doubled slash, ./ prefix) plus 7 pairs of spellings loaded one after the other in one process; local_time_zone "
-            "over TZDIR (4) x TZ {unset, empty, X, :X, localtime, :localtime, invalid, ::X, :/abs} x LOCALTIME {unset, valid, "
+            "nonexistent} x 23 names (relative, absolute, file:-prefixed relative/absolute, empty, directory, unreadable, truncated, "
+            "leap-second data (fat and slim layout), ':'-prefixed, UTC, UTC0, fixed, missing, 'file:' alone, doubled slash, ./ prefix, non-canonical fixed-offset spellings) plus 11 pairs of spellings loaded one after the other in one process; local_time_zone "
+            "over TZDIR (4) x TZ {unset, empty, X, :X, localtime, :localtime, invalid, ::X, :/abs, five look-alikes of the keyword such as 'localtime.bak', UTC, a fixed-offset spelling} x LOCALTIME {unset, valid, "
             "missing, empty, ':'-prefixed}. Oracle: documented resolution -> path -> independent TZif reader -> expected success, "
             "name(), lookup fingerprint, equality with utc_time_zone(); default-constructed zone == UTC; a repeated load answers "
             "the same. Non-trivial = a variable or prefix changes the resolved path; distinct by cell.";
@@ -228,7 +250,10 @@ static void run(const vf::Args& a, vf::Evidence& ev, vf::Reporter& rep) {
   for (auto& td : tzdir_values()) for (auto& n : name_values()) do_cell("load", n, td, kUnset, kUnset);
   for (auto& td : tzdir_values())
     for (const std::string& pair : {std::string("Test/Valid|file:Test/Valid"), std::string("file:Test/Valid|Test/Valid"), "Test/Valid|" + g_fix + "/zoneinfo/Test/Valid",
-                                    std::string("Test/Valid|Test//Valid"), std::string("Test/Missing|file:Test/Missing"), std::string("UTC|UTC0"), std::string("Test/Valid|Test/Other")})
+                                    std::string("Test/Valid|Test//Valid"), std::string("Test/Missing|file:Test/Missing"), std::string("UTC|UTC0"), std::string("Test/Valid|Test/Other"),
+                                    // spellings of one fixed offset: each keeps reporting the name it was asked for
+                                    std::string("Fixed/UTC+02:00:00|Fixed/UTC+01:60:00"), std::string("Fixed/UTC+01:60:00|Fixed/UTC+02:00:00"),
+                                    std::string("Fixed/UTC+01:59:60|Fixed/UTC+01:60:00"), std::string("Fixed/UTC-00:29:60|Fixed/UTC-00:30:00")})
       do_cell("load2", pair, td, kUnset, kUnset);
   for (auto& td : tzdir_values()) for (auto& tz : tz_values()) for (auto& lt : localtime_values()) do_cell("local", "", td, tz, lt);
   ev.exhaustive = true;
